@@ -44,8 +44,16 @@ def gen_request(rng, N):
         return s
     if r < 0.75:
         return ("str", one())
-    if r < 0.95:
+    if r < 0.85:
         return ("strs", [one() for _ in range(rng.randint(1, 3))])
+    if r < 0.95:
+        # the same group named more than once, once narrowed by random / uniform: the request is the UNION of its entries
+        g = rng.choice(["corner", "edge", "core", "all"])
+        l = ["%s_%s_%d" % (g, rng.choice(["random", "uniform"]), rng.randint(1, 3)), g]
+        if rng.random() < 0.5:
+            l.append(rng.choice(["corner", "edge", "core"]))
+        rng.shuffle(l)
+        return ("strs", rng.choice([list, tuple])(l))
     return ("bad", rng.choice([3.5, [0, "edge"], {"a": 1}, ["edge", 1]]))
 
 
@@ -67,7 +75,7 @@ def check(rep, tier):
         shape = (rng.randint(1, 5), rng.randint(1, 5), rng.choice([1, 1, 2]))
         N = shape[0] * shape[1] * shape[2]
         kind, req = gen_request(rng, N)
-        k = {"int": 5, "ext": 5, "s0": 20, "s_sigma_rel": 0}
+        k = {"int": 5, "ext": 5, "s0": 20, "s_sigma_rel": rng.choice([0, 0.1, 0.3])}     # random shelf variability: recording must not perturb it
         chosen, obs, exc = [], None, None
         import ethz_snow.snowflake as SFM
         try:
